@@ -522,10 +522,10 @@ def pat_many_commutations(rng, s):
     half-wave plates (a rewrite that does not shorten the chain) before the polariser absorbs them"""
     if not is_stokes(s) or len(leaves_of(s)) < 2:
         return None
-    k = rng.choice([3, 3, 4, 5])
+    k = rng.choice([5, 6, 7])        # k commutations + k absorptions against k + 2 operands (+ the context)
     r = mk_qurot(rng, s)
     hw = [HWPOperator(s) for _ in range(k)]
-    tail = [LinearPolarizerOperator(s)] if rng.random() < 0.7 else []
+    tail = [LinearPolarizerOperator(s)]
     # application order: the plates first, then the rotation, then the polariser (operands: [pol, R, H, …, H])
     return hw + [r] + tail
 
